@@ -18,11 +18,19 @@ int main(int argc, char** argv) {
         std::size_t n = 2 + rng() % 200;
         // bias towards exactly-fitting messages of each type
         const std::size_t fit[] = {0, 2 + 88, 2 + 64, 2 + 40, 2 + 65, 2 + 13, 2 + 6, 0};
-        if (rng() % 2) n = fit[type % 8] + rng() % 12;
+        if (rng() % 2) { const std::size_t f = fit[type % 8] + rng() % 12; n = f > 9 ? f - rng() % 10 : f; }   // exact, longer and truncated frames
         std::unique_ptr<std::uint8_t[]> buf(new std::uint8_t[n ? n : 1]);
         for (std::size_t i = 0; i < n; ++i) buf[i] = static_cast<std::uint8_t>(rng() % 5 == 0 ? rng() : rng() % 3);
         if (n > 0) buf[0] = static_cast<std::uint8_t>(version);
         if (n > 1) buf[1] = static_cast<std::uint8_t>(type);
+        if (type == 1 && n >= 18) {
+            // announce length fields: small consistent values, or combinations whose 32-bit sum wraps
+            static const std::uint32_t wraps[][3] = {{0x80000000u, 0x80000000u, 0}, {0xFFFFFFF0u, 8, 8}, {0xFFFFFFFFu, 1, 0}, {0x7FFFFFFFu, 0x7FFFFFFFu, 2}};
+            std::uint32_t l[3] = {static_cast<std::uint32_t>(rng() % 4), static_cast<std::uint32_t>(rng() % 4), static_cast<std::uint32_t>(rng() % 4)};
+            if (rng() % 4 == 0) { const auto& w = wraps[rng() % 4]; l[0] = w[0]; l[1] = w[1]; l[2] = w[2]; }
+            for (int f = 0; f < 3; ++f) for (int b = 0; b < 4; ++b) buf[2 + 4 + 4 * f + b] = static_cast<std::uint8_t>(l[f] >> (24 - 8 * b));
+        }
+        if (type == 3 && n >= 10 && rng() % 2) { const std::uint32_t dl = rng() % 6; for (int b = 0; b < 4; ++b) buf[2 + 4 + b] = static_cast<std::uint8_t>(dl >> (24 - 8 * b)); }
         try {
             const auto m = protocol::decode(std::span<const std::uint8_t>(buf.get(), n));
             if (!m.has_value()) continue;
